@@ -21,7 +21,7 @@ CONSTANTS NMax,     \* curves with 2..NMax points
 VARIABLES P, K, wf, pc
 vars == <<P, K, wf, pc>>
 
-Patterns == IF Uneven THEN {<<1>>, <<1, 2>>, <<3, 1>>} ELSE {<<1>>}
+Patterns == IF Uneven THEN {<<1>>, <<1, 2>>, <<3, 1>>, <<1, 0, 2>>} ELSE {<<1>>, <<1, 0, 2>>}   \* <<1, 0, 2>>: repeated abscissae (vertical neighbours)
 XOf(pat, n) == [k \in 1..n |-> IF k = 1 THEN 0 ELSE SeqSum([g \in 1..(k-1) |-> pat[((g-1) % Len(pat)) + 1]])]
 KneeSets(n) == IF n <= FullN THEN SUBSET (0..(n-1))
                ELSE {s \in SUBSET (0..(n-1)) : Cardinality(s) <= 2 \/ s = 0..(n-1)}
